@@ -81,3 +81,25 @@ Theorem C02_checked :
            Acc (post tr).
 Proof. exact WfGrammar.checked_complete. Qed.
 Print Assumptions C02_checked.
+
+From YG Require Import LRBase CompleteDriver LR0Build Resolve Pipeline PipelineRun Front WfGrammar YParser EndToEnd FrontWf ParsedNames EndToEndWf.
+Close Scope Z_scope.
+Open Scope nat_scope.
+
+(* from the bytes of the grammar file: when no table cell has two candidates, every sentence of the grammar object built from the text is accepted with its own rightmost derivation in reverse *)
+Theorem C02_from_the_text :
+  forall (s : list Ascii.ascii) (b : built) (t : tables),
+         generate_text s = GOk b t ->
+         (forall q a : nat,
+          length
+            (TableCert.candidates (gi_rules (b_gi b)) (t_aut t) (la_lookup (t_la t)) 
+               (sprec_of (b_gi b)) (rprec_of (b_gi b)) q a) <= 1) ->
+         forall tr : tree,
+         tvalid (gi_rules (b_gi b)) tr ->
+         Some (root (gi_rules (b_gi b)) tr) = hd_error (rhs_of (gi_rules (b_gi b)) 0) ->
+         (forall a : nat, In a (yield tr) -> a < gi_nsyms (b_gi b)) ->
+         exists fuel : nat,
+           run fuel (dense_action (length (t_aut t)) (t_dense t)) (gi_rules (b_gi b)) [(0, eof)] (yield tr) [] =
+           Acc (post tr).
+Proof. exact EndToEndWf.text_complete. Qed.
+Print Assumptions C02_from_the_text.
